@@ -285,6 +285,35 @@ def fam_accessors(tier: str, rng: random.Random) -> Iterator[dict]:
                 yield {"hid": 0, "tag": "accessors-" + shape, "names": ["f", "fset"], "con": b.con, "cls": cls, "posthoc": []}
 
 
+def fam_recreated(tier: str, rng: random.Random) -> Iterator[dict]:
+    """A class of the hierarchy is re-created from its dictionary through its metaclass - what
+    dataclasses.dataclass(slots=True) and attrs do - and optionally decorated with a further invariant: the new class
+    shows the contracts of the original once, and the original (and every other class) stays as it was."""
+    import copy
+    pool = [h for h in fam_hier_small(tier, rng)] + [h for h in fam_inv_lists(tier, rng)]
+    pool += [h for h in fam_hier(tier, rng) if not any(d["d"] == "foreign" for c in h["cls"] for m in c["members"]
+                                                       for d in m["decos"])]
+    if tier == "quick":
+        pool = rng.sample(pool, min(len(pool), 500))
+    for h in pool:
+        n = len(h["cls"])
+        j = rng.randint(1, n)
+        for extra in ([], ["CALL"]):
+            q = copy.deepcopy(h)
+            orig = q["cls"][j - 1]
+            clone = copy.deepcopy(orig)
+            clone["clone_of"] = j
+            clone["mro"] = [n + 1] + list(orig["mro"][1:])
+            for on in extra:
+                q["con"].append({"role": "inv", "on": on, "name": 0})
+                clone["invs"] = list(clone["invs"]) + [{"c": len(q["con"])}]
+            for c in q["cls"]:
+                c.setdefault("clone_of", 0)
+            q["cls"].append(clone)
+            q["tag"] = q["tag"] + "-recreated"
+            yield q
+
+
 def fam_foreign_hier(tier: str, rng: random.Random) -> Iterator[dict]:
     """Overrides that carry foreign functools.wraps decorators above / between / below their contract decorators,
     in hierarchies (the merged contracts must land on the one real checker)."""
